@@ -9,7 +9,8 @@
     exec-bit policy other than Respect, non-UTF-8 names. Ignore decisions
     (GitIgnoreFile::matches_file / matches_dir under the chain of the ancestors' .gitignore
     files, see C28) and the clean verdict of each tracked path (see C26) are inputs. *)
-From Verif Require Import Base.Prelude Base.FsS Gen.Tables.
+From Verif Require Import Base.Prelude Gen.Tables.
+From Verif Require Export Base.FsS.
 Local Open Scope N_scope.
 
 (** Tree values at file paths (conflicts excluded). *)
@@ -95,51 +96,72 @@ Section Walk.
       else if option_eqb tvalue_eqb (old_at p) (Some v) then [] else [(p, v)] in
     mk_out upd [] [p].
 
-  (** visit_tracked_files over the states below an ignored directory [p]. *)
-  Definition visit_tracked (p : path) : out :=
-    fold_right
-      (fun e acc =>
-         let tp := fst e in
-         if negb (is_prefix p tp) then acc
-         else if ts_sub (snd e) then acc
-         else if negb (sparse_matches tp) then acc
-         else
-           match dlookup root tp with
-           | Some n =>
-               match leaf_value n with
-               | Some v => out_app (present_file tp v) acc
-               | None => out_app (mk_out [] [tp] []) acc
-               end
-           | None => out_app (mk_out [] [tp] []) acc
-           end)
-      out_empty (c_tracked c).
-
-  (** process_dir_entry for the entry [nm -> ch] of directory [dir]; [sub] is the result of
-      visiting [ch] as a directory (used only when the walk descends). *)
-  Definition entry (dir : path) (nm : string) (ch : dnode) (sub : out) : out * list pres :=
-    if reserved nm then (out_empty, [])
+  (** visit_tracked_files (:1725-1760) over the states below an ignored directory [p]: one
+      tracked path. *)
+  Definition tracked_step (p : path) (e : path * tstate) : out :=
+    let tp := fst e in
+    if negb (is_prefix p tp) then out_empty
+    else if ts_sub (snd e) then out_empty
+    else if negb (sparse_matches tp) then out_empty
     else
-      let p := dir ++ [nm] in
-      if is_sub p then (out_empty, [])
-      else
-        match ch with
-        | DDir es =>
-            if nested_repo es then (out_empty, [])
-            else if pmem p (c_ign_dir c) then (visit_tracked p, [PDir nm])
-            else if prefix_visit_nothing (c_sparse c) p then (out_empty, [PDir nm])
-            else (sub, [PDir nm])
-        | _ =>
-            if sparse_matches p then
-              if negb (is_tracked p) && pmem p (c_ign_file c) then (out_empty, [])
-              else if negb (is_tracked p) && negb (prefix_matches (c_auto c) p) then (out_empty, [])
-              else if negb (is_tracked p) && (c_max_size c <? node_size ch) then (out_empty, [])
-              else
-                match leaf_value ch with
-                | Some v => (present_file p v, [PFile nm])
-                | None => (out_empty, [])   (* special file: not considered present *)
-                end
-            else (out_empty, [])
-        end.
+      match dstat root tp with
+      | SFound n =>
+          match leaf_value n with
+          | Some v => present_file tp v
+          | None => mk_out [] [tp] []
+          end
+      | SNotFound | SNotDir =>
+          (* NotFound | NotADirectory: the tracked file is gone (other errors abort the
+             snapshot and are not modelled) *)
+          mk_out [] [tp] []
+      end.
+
+  Definition visit_tracked (p : path) : out :=
+    fold_right (fun e acc => out_app (tracked_step p e) acc) out_empty (c_tracked c).
+
+  (** process_dir_entry (:1595-1722), first half: what kind of entry is [nm -> ch] at path [p]
+      (= dir/nm)? The branches are tested in the source's order. *)
+  Inductive eclass :=
+  | CSkip                      (* Ok(None): not reported as present, nothing recorded *)
+  | CIgnoredDir                (* ignored directory: only tracked files below it are visited *)
+  | CPrunedDir                 (* matcher.visit(path) is nothing: not entered *)
+  | CDescend                   (* visit_directory *)
+  | CPresentFile (v : tvalue). (* process_present_file *)
+
+  Definition classify (p : path) (nm : string) (ch : dnode) : eclass :=
+    if reserved nm then CSkip                                   (* :1616 *)
+    else if is_sub p then CSkip                                 (* :1622-1626 *)
+    else
+      match ch with
+      | DDir es =>
+          if nested_repo es then CSkip                          (* :1638-1642 *)
+          else if pmem p (c_ign_dir c) then CIgnoredDir         (* :1644-1654 *)
+          else if prefix_visit_nothing (c_sparse c) p then CPrunedDir   (* :1655 *)
+          else CDescend
+      | _ =>
+          if sparse_matches p then                              (* :1669 *)
+            if negb (is_tracked p) && pmem p (c_ign_file c) then CSkip            (* :1673-1678 *)
+            else if negb (is_tracked p) && negb (prefix_matches (c_auto c) p) then CSkip  (* :1679-1686 *)
+            else if negb (is_tracked p) && (c_max_size c <? node_size ch) then CSkip     (* :1692-1702 *)
+            else
+              match leaf_value ch with
+              | Some v => CPresentFile v                        (* :1703-1713 *)
+              | None => CSkip              (* special file: not considered present *)
+              end
+          else CSkip
+      end.
+
+  (** process_dir_entry, second half: the output and the reported presence. [sub] is the result
+      of visiting [ch] as a directory (used only when the walk descends). *)
+  Definition entry (dir : path) (nm : string) (ch : dnode) (sub : out) : out * list pres :=
+    let p := dir ++ [nm] in
+    match classify p nm ch with
+    | CSkip => (out_empty, [])
+    | CIgnoredDir => (visit_tracked p, [PDir nm])
+    | CPrunedDir => (out_empty, [PDir nm])
+    | CDescend => (sub, [PDir nm])
+    | CPresentFile v => (present_file p v, [PFile nm])
+    end.
 
   (** emit_deleted_files: tracked paths below [dir] whose next component is not present. *)
   Definition rel_kind (dir p : path) : pres :=
@@ -160,19 +182,22 @@ Section Walk.
                  (c_tracked c)))
       [].
 
+  (** The scan of one directory's entries, given how sub-directories are visited. *)
+  Definition scan (vis : path -> dnode -> out) (dir : path) : list (string * dnode) -> out * list pres :=
+    fix go (l : list (string * dnode)) : out * list pres :=
+      match l with
+      | [] => (out_empty, [])
+      | e :: rest =>
+          let a := entry dir (fst e) (snd e) (vis (dir ++ [fst e]) (snd e)) in
+          let b := go rest in
+          (out_app (fst a) (fst b), snd a ++ snd b)
+      end.
+
   (** visit_directory *)
   Fixpoint visit (dir : path) (n : dnode) : out :=
     match n with
     | DDir es =>
-        let r :=
-          (fix go (l : list (string * dnode)) : out * list pres :=
-             match l with
-             | [] => (out_empty, [])
-             | e :: rest =>
-                 let a := entry dir (fst e) (snd e) (visit (dir ++ [fst e]) (snd e)) in
-                 let b := go rest in
-                 (out_app (fst a) (fst b), snd a ++ snd b)
-             end) es in
+        let r := scan visit dir es in
         out_app (fst r) (emit_deleted dir (snd r))
     | _ => out_empty
     end.
@@ -207,63 +232,49 @@ Section Walk.
     | None => ANone
     end.
 
-  (** What happens to path [dir ++ q], decided by descending from directory node [n] (at
-      [dir]) along [q] — the conditions of process_dir_entry, level by level. *)
+  (** A tracked path below an ignored directory: looked up by its absolute path
+      (visit_tracked_files). *)
+  Definition tracked_only (p : path) : action :=
+    match st_at p with
+    | Some s =>
+        if negb (ts_sub s) && sparse_matches p then
+          match dstat root p with
+          | SFound leaf =>
+              match leaf_value leaf with
+              | Some v => APresent v
+              | None => ADelete
+              end
+          | SNotFound | SNotDir => ADelete
+          end
+        else ANone
+    | None => ANone
+    end.
+
+  (** What happens to path [dir ++ q], decided by descending from the directory node [n] (at
+      [dir]) along [q]: at every level the entry named by the next component is classified
+      exactly as the walk classifies it. Anything the walk does not accept at the path means
+      [gone]: a tracked path is then reported deleted. *)
   Fixpoint act (dir : path) (n : dnode) (q : path) {struct q} : action :=
-    match n with
-    | DDir es =>
-        match q with
-        | [] => gone dir
-        | nm :: q' =>
+    match q with
+    | [] => match n with DDir _ => gone dir | _ => ANone end
+    | nm :: q' =>
+        match n with
+        | DDir es =>
             let p1 := dir ++ [nm] in
             let p := dir ++ q in
-            if reserved nm then gone p
-            else if is_sub p1 then gone p
-            else
-              match find_entry nm es with
-              | None => gone p
-              | Some (DDir es') =>
-                  if nested_repo es' then gone p
-                  else
-                    match q' with
-                    | [] => gone p
-                    | _ =>
-                        if pmem p1 (c_ign_dir c) then
-                          (* only tracked files are looked at, by their absolute path *)
-                          match st_at p with
-                          | Some s =>
-                              if negb (ts_sub s) && sparse_matches p then
-                                match dlookup root p with
-                                | Some leaf =>
-                                    match leaf_value leaf with
-                                    | Some v => APresent v
-                                    | None => ADelete
-                                    end
-                                | None => ADelete
-                                end
-                              else ANone
-                          | None => ANone
-                          end
-                        else if prefix_visit_nothing (c_sparse c) p1 then ANone
-                        else act p1 (DDir es') q'
-                    end
-              | Some leaf =>
-                  match q' with
-                  | [] =>
-                      if sparse_matches p then
-                        if negb (is_tracked p) && pmem p (c_ign_file c) then ANone
-                        else if negb (is_tracked p) && negb (prefix_matches (c_auto c) p) then ANone
-                        else if negb (is_tracked p) && (c_max_size c <? node_size leaf) then ANone
-                        else match leaf_value leaf with
-                             | Some v => APresent v
-                             | None => gone p
-                             end
-                      else ANone
-                  | _ => gone p
-                  end
-              end
+            match find_entry nm es with
+            | None => gone p
+            | Some ch =>
+                match classify p1 nm ch, q' with
+                | CPresentFile v, [] => APresent v
+                | CIgnoredDir, _ :: _ => tracked_only p
+                | CPrunedDir, _ :: _ => ANone
+                | CDescend, _ :: _ => act p1 ch q'
+                | _, _ => gone p
+                end
+            end
+        | _ => ANone
         end
-    | _ => ANone
     end.
 
   (** The value the property demands at a path. *)
@@ -301,7 +312,7 @@ Record case := mk_case {
   k_disk : dnode;                       (* the working-copy directory at snapshot time *)
   k_new_tree : list (path * tvalue);    (* impl: tree after the snapshot, flattened *)
   k_new_tracked : list path;            (* impl: keys of file_states after the snapshot *)
-  k_panicked : bool;
+  k_failed : bool;                      (* impl: snapshot returned Err (or panicked) *)
 }.
 
 (** Paths at which model / property and implementation are compared. *)
@@ -310,7 +321,7 @@ Definition probe_paths (k : case) : list path :=
   ++ map fst (k_new_tree k) ++ k_new_tracked k.
 
 Definition okb (k : case) : bool :=
-  negb (k_panicked k) &&
+  negb (k_failed k) &&
   forallb (fun p =>
              option_eqb tvalue_eqb (plookup p (k_new_tree k)) (expected_at (k_cfg k) (k_disk k) p)
              && Bool.eqb (pmem p (k_new_tracked k)) (expected_tracked (k_cfg k) (k_disk k) p))
@@ -320,7 +331,7 @@ Definition check_case (k : case) : N :=
   let c := k_cfg k in
   let w := walk c (k_disk k) in
   let corr :=
-    negb (k_panicked k) && wf_node (k_disk k) &&
+    wf_node (k_disk k) && paths_unique (map fst (c_tracked c)) && negb (k_failed k) &&
     forallb (fun p =>
                option_eqb tvalue_eqb (plookup p (k_new_tree k)) (tree_of c w p)
                && Bool.eqb (pmem p (k_new_tracked k)) (tracked_of c w p))
